@@ -74,6 +74,9 @@ W = [
          input=J({'sum_total': 1, 'true_x': 1, 'nullable': 2, 'sorted': 5}), json_lines=[{'r': 2, 'sorted': 5}]),
     dict(id='regex-size-limit', commit='81166bb', props=['C04', 'C11'], query='* | parse "' + '* x ' * 5000 + '" as ' + ','.join('f%d' % i for i in range(5000)),
          input='a x b x\n', rejected=True, max_s=60),
+    dict(id='int-float-exact-order', commit='1274b83', props=['C13', 'C09', 'C05', 'C14'], query='* | json | count by k | fields k',
+         input='{"k": 9223372036854775806}\n{"k": 9223372036854775808}\n{"k": 9223372036854775807}\n{"k": 9007199254740993}\n{"k": 2.5}\n{"k": 2}\n',
+         stdout='[{"k":2},{"k":2.5},{"k":9007199254740993},{"k":9223372036854775806},{"k":9223372036854775807},{"k":9.223372036854776e18}]\n'),
 ]
 
 
